@@ -113,8 +113,16 @@ func (x *Ctx) nativeFuzz(target string, execs int, seeds []string) (*fuzzOutcome
 		}
 	}
 	if o.Input == "" {
-		// a seed itself failed: the output names it
-		if m := regexp.MustCompile(`(?s)on "((?:[^"\\]|\\.)*)"`).FindStringSubmatch(string(out)); m != nil {
+		// a seed itself failed: `--- FAIL: FuzzX/seed-12`
+		if m := regexp.MustCompile(`FAIL: \w+/seed-(\d+)`).FindStringSubmatch(string(out)); m != nil {
+			if i, err := strconv.Atoi(m[1]); err == nil && i < len(seeds) {
+				o.Input = seeds[i]
+			}
+		}
+	}
+	if o.Input == "" {
+		// or the failure message quotes the input
+		if m := regexp.MustCompile(`(?s)(?:on|highlighting) "((?:[^"\\]|\\.)*)"`).FindStringSubmatch(string(out)); m != nil {
 			if s, err := strconv.Unquote(`"` + m[1] + `"`); err == nil {
 				o.Input = s
 			}
